@@ -2,10 +2,19 @@ use slotted_egraphs::*;
 use verif_harness::langs::T;
 fn main() {
     let mut eg: EGraph<T> = EGraph::default();
-    let t = std::env::args().nth(1).unwrap();
-    let p = std::env::args().nth(2).unwrap();
-    eg.add_expr(RecExpr::parse(&t).unwrap());
-    let pat: Pattern<T> = Pattern::parse(&p).unwrap();
-    for m in ematch_all(&eg, &pat) { println!("{m:?}"); }
-    eg.dump();
+    let a = eg.add_syn_expr(RecExpr::parse("(f $1 $2)").unwrap());
+    let b = eg.add_syn_expr(RecExpr::parse("(v $2)").unwrap());
+    #[cfg(feature = "explanations")]
+    eg.union_justified(&a, &b, Some("fv".to_string()));
+    #[cfg(not(feature = "explanations"))]
+    eg.union(&a, &b);
+    let args: Vec<String> = std::env::args().skip(1).collect();
+    let mut hs = Vec::new();
+    for t in &args { let h = eg.add_syn_expr(RecExpr::parse(t).unwrap()); println!("added {t} -> {h:?}"); hs.push(h); }
+    println!("eq: {}", eg.eq(&hs[0], &hs[1]));
+    #[cfg(feature = "explanations")]
+    {
+        let p = eg.explain_equivalence(RecExpr::parse(&args[0]).unwrap(), RecExpr::parse(&args[1]).unwrap());
+        println!("{}", p.to_string(&eg));
+    }
 }
